@@ -343,6 +343,14 @@ func genReq(t *rapid.T, label string, intact *bool) Req {
 		if col == "colv2" {
 			targets = []targeted{
 				{"indexed vector of the wrong length", func(b map[string]any) { pt(b)["vector"] = []any{1.0, 2.0, 3.0} }},
+				{"indexed vector component beyond the range of a float32", func(b map[string]any) {
+					big := rapid.SampledFrom([]float64{1e300, -1e39, 3.5e38, -1.7976931348623157e308}).Draw(t, label+"-f32big")
+					if rapid.Bool().Draw(t, label+"-f32flat") {
+						pt(b)["flat"] = []any{big, 0.0}
+					} else {
+						pt(b)["vector"] = []any{0.0, big}
+					}
+				}},
 				{"indexed flat vector of length 1", func(b map[string]any) { pt(b)["flat"] = []any{1.0} }},
 				{"empty indexed vector", func(b map[string]any) { pt(b)["vector"] = []any{} }},
 				{"vector given as a string", func(b map[string]any) { pt(b)["vector"] = "memes" }},
@@ -425,6 +433,21 @@ func genReq(t *rapid.T, label string, intact *bool) Req {
 					}
 					b["sort"] = l
 					b["select"] = []any{"size"}
+				}},
+				{"query vector component or weight that is not a finite number (a string in JSON, NaN / infinity in MessagePack)", func(b map[string]any) {
+					bad := rapid.SampledFrom([]string{"$NaN", "$Inf", "$-Inf"}).Draw(t, label+"-nfq")
+					switch rapid.IntRange(0, 4).Draw(t, label+"-nfqw") {
+					case 0:
+						b["query"] = map[string]any{"property": "flat", "vectorFlat": map[string]any{"vector": []any{bad, 1.0}, "operator": "near", "limit": 10.0}}
+					case 1:
+						b["query"] = map[string]any{"property": "vector", "vectorVamana": map[string]any{"vector": []any{0.0, bad}, "operator": "near", "searchSize": 75.0, "limit": 10.0}}
+					case 2:
+						b["query"] = map[string]any{"property": "flat", "vectorFlat": map[string]any{"vector": []any{0.0, 1.0}, "operator": "near", "limit": 10.0, "weight": bad}}
+					case 3:
+						b["query"] = map[string]any{"property": "vector", "vectorVamana": map[string]any{"vector": []any{0.0, 1.0}, "operator": "near", "searchSize": 75.0, "limit": 10.0, "weight": bad}}
+					default:
+						b["query"] = map[string]any{"property": "description", "text": map[string]any{"value": "dress", "operator": "containsAny", "limit": 5.0, "weight": bad}}
+					}
 				}},
 				{"float query operand that is not a number (a string in JSON, NaN in MessagePack)", func(b map[string]any) {
 					op := rapid.SampledFrom([]string{"equals", "notEquals", "greaterThan", "greaterThanOrEquals", "lessThan", "lessThanOrEquals", "inRange"}).Draw(t, label+"-nanop")
@@ -550,6 +573,9 @@ func genReq(t *rapid.T, label string, intact *bool) Req {
 		targets = []targeted{
 			{"v1 query vector of the wrong length", func(b map[string]any) { b["vector"] = []any{1.0} }},
 			{"v1 limit 76", func(b map[string]any) { b["limit"] = 76.0 }},
+			{"v1 query vector element that is not a finite number (a string in JSON, NaN / infinity in MessagePack)", func(b map[string]any) {
+				b["vector"] = []any{1.0, rapid.SampledFrom([]string{"$NaN", "$Inf", "$-Inf"}).Draw(t, label+"-v1nf")}
+			}},
 		}
 	}
 	// the targeted violations assume alice's baseline collection colv2 with its full schema
@@ -795,6 +821,14 @@ func genCase(t *rapid.T) Case {
 		if rapid.IntRange(0, 3).Draw(t, "nt-insert") > 0 {
 			seq = append(seq, Req{Method: "POST", Path: "/v2/collections/sub1/points", Headers: hdA, Body: `{"points":[{"size":1}]}`})
 		}
+		if nested == "alice/sub1" && rapid.IntRange(0, 2).Draw(t, "nt-encoded") == 0 {
+			// the collection of the other user, named by alice with an encoded slash in the collection segment
+			api := rapid.SampledFrom([]string{"/v1", "/v2"}).Draw(t, "nt-enc-api")
+			const why = "collection id with an encoded slash"
+			seq = append(seq, Req{Method: "GET", Path: api + "/collections/sub1%2Fkept1", Headers: hdA, MustReject: why},
+				Req{Method: "POST", Path: "/v2/collections/sub1%2Fkept1/points/search", Headers: hdA, Body: `{"query":{"property":"size","integer":{"value":0,"operator":"greaterThan"}},"limit":5}`, MustReject: why},
+				Req{Method: "DELETE", Path: api + "/collections/sub1%2Fkept1", Headers: hdA, MustReject: why})
+		}
 		seq = append(seq, Req{Method: "DELETE", Path: "/v2/collections/sub1", Headers: hdA})
 		c.Reqs = append(c.Reqs, seq...)
 		intact = false
@@ -889,6 +923,9 @@ func expand(v any) any {
 // else keeps the type the JSON decoder gave it).
 var intKeys = map[string]bool{"limit": true, "offset": true, "searchSize": true, "vectorSize": true, "degreeBound": true, "triggerThreshold": true, "numCentroids": true, "numSubVectors": true}
 
+// v1Vectors: the body goes to the v1 API, whose request types hold every vector as 32 bit floats
+var v1Vectors bool
+
 func intFields(v any, under string) any {
 	switch x := v.(type) {
 	case map[string]any:
@@ -896,6 +933,21 @@ func intFields(v any, under string) any {
 			if f, ok := e.(float64); ok && f == math.Trunc(f) && math.Abs(f) < 1<<53 && (intKeys[k] || (under == "integer" && (k == "value" || k == "endValue"))) {
 				x[k] = int64(f)
 				continue
+			}
+			// query vectors and weights are 32 bit floats in the request types: the decoder takes nothing wider
+			if under == "vectorFlat" || under == "vectorVamana" || under == "text" || (v1Vectors && k == "vector") {
+				if f, ok := e.(float64); ok && k == "weight" {
+					x[k] = float32(f)
+					continue
+				}
+				if l, ok := e.([]any); ok && k == "vector" {
+					for i := range l {
+						if f, ok := l[i].(float64); ok {
+							l[i] = float32(f)
+						}
+					}
+					continue
+				}
 			}
 			x[k] = intFields(e, k)
 		}
@@ -916,6 +968,7 @@ func (r Req) build() (*http.Request, error) {
 	if r.Msgpack {
 		var tree any
 		if err := json.Unmarshal(body, &tree); err == nil {
+			v1Vectors = strings.HasPrefix(r.Path, "/v1/")
 			mb, err := msgpack.Marshal(intFields(expand(tree), ""))
 			if err == nil {
 				body = mb
@@ -1184,7 +1237,7 @@ func execCase(c Case) (res vt.Result) {
 		if status/100 == 2 && r.Msgpack && !vecHuge && strings.Contains(r.Body, `"$`) && strings.HasSuffix(r.Path, "/points") && (strings.Contains(w.Body.String(), `"failedRanges":[]`) || strings.Contains(w.Body.String(), `"failedPoints":[]`)) {
 			rec.Count("accepted_writes_with_a_non_finite_number_outside_the_indexed_vectors", 1)
 		}
-		if status == 500 && nonFinite.MatchString(w.Body.String()) && (reqHuge || vectorTaint) {
+		if status == 500 && nonFinite.MatchString(w.Body.String()) && (reqHuge || vectorTaint) && r.MustReject == "" {
 			// a request that passed validation but whose distances / scores overflowed: the property judges
 			// valid requests only when their distances stay finite. That is only possible when the request
 			// itself, or an indexed vector stored before, holds a huge or non-finite number: a non-finite
